@@ -140,7 +140,7 @@ func c13Seeds() []c13Seed {
 			out = append(out, c13Seed{Handler: kind, BodyKind: "xml", NeedsXML: true, Req: harness.Req{Method: "REPORT", Path: p, Header: with(xmlH(), "Depth", "1"), Body: multiget}})
 			out = append(out, c13Seed{Handler: kind, BodyKind: "xml", NeedsXML: true, Req: harness.Req{Method: "PROPPATCH", Path: p, Header: xmlH(), Body: c13Proppatch}})
 			for _, m := range []string{"COPY", "MOVE"} {
-				out = append(out, c13Seed{Handler: kind, Req: harness.Req{Method: m, Path: p, Header: map[string]string{"Destination": p + "x"}}})
+				out = append(out, c13Seed{Handler: kind, Depth: true, Overwrite: true, Dest: true, Req: harness.Req{Method: m, Path: p, Header: map[string]string{"Destination": p + "x", "Overwrite": "T", "Depth": "infinity"}}})
 			}
 		}
 	}
